@@ -255,9 +255,64 @@ def _build_harness():
                      "module verif/harness\n\ngo 1.17\n\nrequire github.com/alttpo/snes v0.0.0\n\n"
                      "replace github.com/alttpo/snes => %s\n" % REPO)
     out = os.path.join(BUILD, "harness.bin")
+    if os.environ.get("VERIF_COVER"):
+        # diagnostic mode (tools/covreport.py): the harness as a coverage-instrumented test binary behind a wrapper
+        # script; every invocation leaves a statement-coverage profile of /repo under $VERIF_COVER.  Never used for evidence.
+        return _build_harness_cover(hd, out)
+    # a wrapper left behind by the diagnostic mode must not survive
+    if os.path.exists(out) and open(out, "rb").read(2) == b"#!":
+        os.remove(out)
+    tm = os.path.join(hd, "cover_main_test.go")
+    if os.path.exists(tm):
+        os.remove(tm)
     rc, o, _ = sh(["go", "build", "-o", out, "."], cwd=hd, timeout=600)
     if rc != 0:
         return None, o
+    return out, ""
+
+
+COVER_MAIN = '''package main
+
+import (
+	"os"
+	"testing"
+)
+
+// the harness command line follows "--"; the coverage profile is written by m.Run()
+func TestMain(m *testing.M) {
+	var args []string
+	for i, a := range os.Args {
+		if a == "--" {
+			args = os.Args[i+1:]
+			os.Args = os.Args[:i]
+			break
+		}
+	}
+	rc := 2
+	if len(args) > 0 {
+		if f, ok := commands[args[0]]; ok {
+			rc = f(args[1:])
+		}
+	}
+	devnull, _ := os.OpenFile(os.DevNull, os.O_WRONLY, 0)
+	os.Stdout = devnull
+	m.Run()
+	os.Exit(rc)
+}
+'''
+
+
+def _build_harness_cover(hd, out):
+    covdir = os.environ["VERIF_COVER"]
+    os.makedirs(covdir, exist_ok=True)
+    write_if_changed(os.path.join(hd, "cover_main_test.go"), COVER_MAIN)
+    binp = os.path.join(BUILD, "harness_cov.bin")
+    rc, o, _ = sh(["go", "test", "-c", "-cover", "-covermode=set", "-coverpkg=github.com/alttpo/snes/...", "-o", binp, "."], cwd=hd, timeout=900)
+    if rc != 0:
+        return None, o
+    with open(out, "w") as f:
+        f.write("#!/bin/sh\nexec %s -test.coverprofile=%s/p.$$.$(date +%%s%%N) -- \"$@\"\n" % (binp, covdir))
+    os.chmod(out, 0o755)
     return out, ""
 
 
